@@ -521,7 +521,8 @@ func readKnown(verifDir string) map[string]string {
 			}
 		}
 		if id != "" {
-			known[id] = "property=" + prop + " " + what
+			known[id] = what
+			_ = prop
 		}
 	}
 	return known
